@@ -67,7 +67,7 @@ CLAIMED = {
  "C02": dict(
    text="Consumer.tla models the single-partition consumer at the level of application calls, client replies (fetch windows drawn from a log with gaps: the next 0-3 entries, optionally preceded by an already consumed entry as a compressed batch returns it, 'too small', or ending in an entry that fails to decode), processor completions, timers; TLC checks exhaustively (5 configurations, bounded depth) that offsets reach the processor strictly increasing, without omission relative to the log from the resolved position, never overlapping; an edge cover of the state graph, TLC -simulate behaviours and seeded random schedules are executed on the real Consumer over a scripted client and TLC re-validates every recorded step (processor invocations, fetch offsets) and the order/no-gap clauses on the observed history.",
    ref="DESIGN.md 6.6, 7 (C02)",
-   note="Trusted: TLC. In this family the client is the consumer's environment (scripted); message content, compressed sets and both message formats reach the consumer through the real client and codec only in the full-stack consumer runs (see DESIGN.md) and in C05's decoder vectors. A reply that fails to decode while parked behind processing is not scheduled."),
+   note="Trusted: TLC, the simulated cluster's stored log as ground truth. Two bindings: (a) the consumer over a scripted client, driven by TLC-generated and random schedules; (b) full stack: the real Consumer over the real KafkaClient, broker clients, protocols and codec on the simulated cluster whose log holds gaps, gzip wrappers in both message formats at non-zero offsets and a message larger than the first fetch buffer, fetch v0 and (with version discovery) v2, under random answers/errors/drops/leader and coordinator moves; consumer-level events are derived from the completion of the client's request methods and validated against the same specification, and every delivered message's key/value/offset is compared with the stored one. A reply that fails to decode while parked behind processing is not scheduled."),
  "C03": dict(
    text="Same specification and executions as C02, judged on C03's clauses: every commit request carries the last processed offset at the moment it is issued, every delivered message up to it was processed successfully, one commit request outstanding at a time, the recorded last-committed offset changes only to a value the coordinator acknowledged (commit accepted) or reported (offset fetch), start from the committed position resumes at committed+1; processor failures, manual/count/time-triggered commits, their retries and stop/shutdown at every point.",
    ref="DESIGN.md 6.6, 7 (C03)",
